@@ -232,6 +232,9 @@ type MacroCase struct {
 	Call     gen.Val        `json:"call"`
 	Macrolet bool           `json:"macrolet"`
 	Stats    map[string]int `json:"stats"`
+	// Mut: also macroexpand / macroexpand-1 the call, mutate the expansions
+	// in place (reeval_test.go) and only then evaluate the call
+	Mut *MutMode `json:"mut,omitempty"`
 }
 
 func genMacroCase() *rapid.Generator[MacroCase] {
@@ -246,6 +249,10 @@ func genMacroCase() *rapid.Generator[MacroCase] {
 		mc := MacroCase{Defs: defs, Call: call, Macrolet: rapid.IntRange(0, 3).Draw(t, "macrolet") == 0, Stats: g.stats}
 		if !mc.Macrolet && rapid.IntRange(0, 3).Draw(t, "crosspkg") == 0 {
 			mc.CrossPkg = true
+		}
+		if rapid.IntRange(0, 9).Draw(t, "mutate-expansions") < 7 {
+			m := genMutMode(t)
+			mc.Mut = &m
 		}
 		return mc
 	})
@@ -370,6 +377,11 @@ func checkMacro(mc MacroCase, c *vcommon.Ctx) *vcommon.Failure {
 	} else if oA.IsErr || oA.Canon != refint.Canon(rv) {
 		return vcommon.Failf("reference/outcome", "reference returns %s, real gives %s\n%s", refint.Canon(rv), out(oA), srcA)
 	}
+	if mc.Mut != nil {
+		if f := checkMacroMutated(mc, quotedCall, c); f != nil {
+			return f
+		}
+	}
 	if mc.Macrolet {
 		// macroexpand sees LEXICAL macros too: inside the macrolet the call's
 		// expansion (one step and all steps) is what the reference computes
@@ -470,6 +482,78 @@ func checkMacro(mc MacroCase, c *vcommon.Ctx) *vcommon.Failure {
 		return vcommon.Failf("macroexpand-1/iterated", "iterating macroexpand-1 gives %s, macroexpand gives %s\n%s", got, full.Canon, srcA)
 	}
 	c.Class("iterated-expand-compared")
+	return nil
+}
+
+// checkMacroMutated: the call is macroexpanded and macroexpand-1'ed first, both
+// expansions are mutated in place by the walker of reeval_test.go (real
+// interpreter only), and only then the call is evaluated.  An expansion is a
+// fresh instantiation of the macro's template over the (literal) argument
+// forms, so nothing the walker does to it may change what the call means.
+func checkMacroMutated(mc MacroCase, quotedCall gen.Val, c *vcommon.Ctx) *vcommon.Failure {
+	type step struct {
+		form     gen.Val
+		realOnly bool
+	}
+	steps := []step{
+		{gen.Call("set", gen.QS("exp-all"), gen.Call("macroexpand", quotedCall)), false},
+		{gen.Call(mc.Mut.fn(), gen.S("exp-all")), true},
+		{gen.Call("set", gen.QS("exp-one"), gen.Call("macroexpand-1", quotedCall)), false},
+		{gen.Call(mc.Mut.fn(), gen.S("exp-one")), true},
+		{mc.Call, false},
+	}
+	build := func(real bool) []gen.Val {
+		var body []gen.Val
+		for _, s := range steps {
+			if real || !s.realOnly {
+				body = append(body, s.form)
+			}
+		}
+		switch {
+		case mc.Macrolet:
+			return []gen.Val{macroletForm(mc.Defs, gen.L(append([]gen.Val{gen.S("progn")}, body...)...))}
+		case mc.CrossPkg:
+			pre := []gen.Val{gen.Call("set", gen.QS("scale"), gen.I(2)), gen.Call("in-package", gen.QS("ml")), gen.Call("set", gen.QS("scale"), gen.I(1000))}
+			for _, d := range mc.Defs {
+				pre = append(pre, gen.Call("export", gen.L(gen.S("quote"), d.L[1])))
+			}
+			pre = append(pre, mc.Defs...)
+			pre = append(pre, gen.Call("in-package", gen.QS("user")), gen.Call("use-package", gen.QS("ml")))
+			return append(pre, body...)
+		}
+		return append(append([]gen.Val{gen.Call("set", gen.QS("scale"), gen.I(2))}, mc.Defs...), body...)
+	}
+	refProg := build(false)
+	in, rv, rerr, abort := refRun(refProg)
+	if abort != "" || in.Unsupported != "" {
+		c.Class("skip/reference-mutated")
+		return nil
+	}
+	src := mutDefs(*mc.Mut) + gen.RenderProgram(build(true))
+	rt := vcommon.NewRuntime(rtCfg)
+	o := rt.Load(src)
+	if o.Panic {
+		return vcommon.Failf("internal-panic", "internal panic: %s\n%s", o.Msg, src)
+	}
+	if o.Cond == "step-limit-exceeded" || strings.Contains(o.Msg, "stack height") || strings.Contains(o.Msg, "macro expansion depth") {
+		c.Class("skip/limit")
+		return nil
+	}
+	tr, ws := splitWalkerTrace(rt.Trace)
+	c.Class("expansions-mutated-before-the-call")
+	ws.classes(c)
+	if rerr != nil {
+		if !o.IsErr || o.Cond != rerr.Cond {
+			return vcommon.Failf("mutated-expansion/outcome", "after the call's expansions were mutated in place: reference signals %q, real gives %s\n%s", rerr.Cond, out(o), src)
+		}
+		return nil
+	}
+	if got, want := vcommon.TraceString(tr), refTrace(in); got != want {
+		return vcommon.Failf("mutated-expansion/trace", "after the call's expansions were mutated in place the call's effects differ from the reference\n%s\nreal:\n%s\nreference:\n%s\nreal %s", src, got, want, out(o))
+	}
+	if o.IsErr || o.Canon != refint.Canon(rv) {
+		return vcommon.Failf("mutated-expansion/outcome", "after the call's expansions were mutated in place: reference returns %s, real gives %s\n%s", refint.Canon(rv), out(o), src)
+	}
 	return nil
 }
 
@@ -622,6 +706,9 @@ type QuasiCase struct {
 	Tmpl  gen.Val        `json:"tmpl"`
 	Depth int            `json:"depth"`
 	Stats map[string]int `json:"stats"`
+	// Mut: the template lives in a function that is called twice; the first
+	// result is mutated in place (reeval_test.go) before the second call
+	Mut *MutMode `json:"mut,omitempty"`
 }
 
 func genQuasi() *rapid.Generator[QuasiCase] {
@@ -633,6 +720,10 @@ func genQuasi() *rapid.Generator[QuasiCase] {
 			t2 := g.item(rapid.IntRange(0, 3).Draw(t, "depth2"))
 			qc.Tmpl2 = &t2
 			g.stats["two-templates"]++
+		}
+		if rapid.IntRange(0, 9).Draw(t, "mutate-first-result") < 7 {
+			m := genMutMode(t)
+			qc.Mut = &m
 		}
 		return qc
 	})
@@ -651,6 +742,16 @@ func checkQuasi(q QuasiCase, c *vcommon.Ctx) *vcommon.Failure {
 	form := gen.L(gen.S("let"), gen.L(binds...), body)
 	prog := []gen.Val{form}
 	src := gen.RenderProgram(prog)
+	if q.Mut != nil {
+		// the same quasiquote form(s) evaluated twice; the bindings are made
+		// anew by every call, so whatever the walker does to the first result
+		// can reach nothing the second call sees
+		def := gen.L(gen.S("defun"), gen.S("qq-g"), gen.L(), form)
+		first := []gen.Val{def, gen.Call("set", gen.QS("qq-r"), gen.Call("qq-g")), gen.Call("probe", gen.I(9000), gen.S("qq-r"))}
+		prog = append(append([]gen.Val{}, first...), gen.Call("qq-g"))
+		src = mutDefs(*q.Mut) + gen.RenderProgram(first) + gen.Render(gen.Call(q.Mut.fn(), gen.S("qq-r"))) + "\n" + gen.Render(gen.Call("qq-g")) + "\n"
+		c.Class("evaluated-twice-with-mutation-between")
+	}
 	for k, n := range q.Stats {
 		if n > 0 {
 			c.Class("has/" + k)
@@ -680,7 +781,11 @@ func checkQuasi(q QuasiCase, c *vcommon.Ctx) *vcommon.Failure {
 		}
 		return nil
 	}
-	if got, want := vcommon.TraceString(rt.Trace), refTrace(in); got != want {
+	realTrace, ws := splitWalkerTrace(rt.Trace)
+	if q.Mut != nil {
+		ws.classes(c)
+	}
+	if got, want := vcommon.TraceString(realTrace), refTrace(in); got != want {
 		return vcommon.Failf("quasiquote/trace", "unquoted expressions were not evaluated as the template prescribes\n%s\nreal:\n%s\nreference:\n%s", src, got, want)
 	}
 	c.Class("outcome/value")
@@ -698,59 +803,171 @@ func checkQuasi(q QuasiCase, c *vcommon.Ctx) *vcommon.Failure {
 type GensymCase struct {
 	Names []int  `json:"names"` // numbers N of genNNNNNNNN-shaped symbols written in the program
 	Order []bool `json:"order"` // interleaving: true = (gensym), false = use a written symbol
+	// The three slices below run parallel to Order (missing entries = 0 / false).
+	// Kind: 0 as Order says; 1-3 the fresh symbols inside the one-step expansion
+	// of a builtin macro that protects a temporary (trace, get-default, curry-function).
+	Kind []int `json:"kind,omitempty"`
+	// Pkg: 0 stay; 1-3 this item starts a new top-level load that begins with
+	// (in-package 'gp1 | 'gp2 | 'user).
+	Pkg []int `json:"pkg,omitempty"`
+	// Split: this item starts a new top-level load of the same runtime.
+	Split []bool `json:"split,omitempty"`
 }
 
 func genGensym() *rapid.Generator[GensymCase] {
 	return rapid.Custom(func(t *rapid.T) GensymCase {
-		return GensymCase{
+		g := GensymCase{
 			Names: rapid.SliceOfN(rapid.IntRange(1, 12), 0, 4).Draw(t, "names"),
 			Order: rapid.SliceOfN(rapid.Bool(), 1, 14).Draw(t, "order"),
 		}
+		if rapid.IntRange(0, 2).Draw(t, "plain") > 0 {
+			n := len(g.Order)
+			g.Kind, g.Pkg, g.Split = make([]int, n), make([]int, n), make([]bool, n)
+			for i := 0; i < n; i++ {
+				g.Kind[i] = rapid.SampledFrom([]int{0, 0, 0, 0, 1, 2, 3}).Draw(t, "kind")
+				g.Pkg[i] = rapid.SampledFrom([]int{0, 0, 0, 1, 2, 3}).Draw(t, "pkg")
+				g.Split[i] = rapid.IntRange(0, 3).Draw(t, "split") == 0
+			}
+		}
+		return g
 	})
 }
 
 var symTok = regexp.MustCompile(`[A-Za-z0-9_+\-*/=<>!&~%?$.:]+`)
+var genTok = regexp.MustCompile(`^gen[0-9]+$`)
 
-func checkGensym(g GensymCase, c *vcommon.Ctx) *vcommon.Failure {
-	var b strings.Builder
-	b.WriteString("(list")
-	ni := 0
-	for _, gs := range g.Order {
-		if gs || len(g.Names) == 0 {
-			b.WriteString(" (gensym)")
-		} else {
-			fmt.Fprintf(&b, " 'gen%08d", g.Names[ni%len(g.Names)])
-			ni++
+var gensymExpansions = []struct {
+	src   string
+	fresh int
+}{
+	1: {"(macroexpand-1 '(trace zz))", 1},
+	2: {"(macroexpand-1 '(get-default zm \"k\" 0))", 2},
+	3: {"(macroexpand-1 '(curry-function + 1))", 1},
+}
+
+// genSymbolsIn lists the distinct gen<digits> symbols of a value in order of
+// first appearance.
+func genSymbolsIn(v *lisp.LVal, seen map[string]bool, out *[]string) {
+	if v == nil {
+		return
+	}
+	if v.Type == lisp.LSymbol && genTok.MatchString(v.Str) && !seen[v.Str] {
+		seen[v.Str] = true
+		*out = append(*out, v.Str)
+	}
+	if v.Type == lisp.LSExpr || v.Type == lisp.LQuote {
+		for _, c := range v.Cells {
+			genSymbolsIn(c, seen, out)
 		}
 	}
-	b.WriteString(")")
-	src := b.String()
+}
+
+func checkGensym(g GensymCase, c *vcommon.Ctx) *vcommon.Failure {
+	at := func(xs []int, i int) int {
+		if i < len(xs) {
+			return xs[i]
+		}
+		return 0
+	}
+	// one or more top-level loads of the same runtime; each is (list item ...)
+	type item struct{ kind int } // -1 written symbol, 0 (gensym), 1-3 expansion
+	var loads []string
+	var items [][]item
+	var b strings.Builder
+	var cur []item
+	flush := func() {
+		if len(cur) > 0 {
+			b.WriteString(")")
+			loads, items = append(loads, b.String()), append(items, cur)
+		}
+		b.Reset()
+		cur = nil
+	}
+	ni := 0
+	pkgs, split, kinds := false, false, false
+	for i, gs := range g.Order {
+		if i < len(g.Split) && g.Split[i] && len(cur) > 0 {
+			flush()
+			split = true
+		}
+		if p := at(g.Pkg, i); p >= 1 && p <= 3 {
+			// a load restores the current package when it returns, so the
+			// switch is the first form of the load it is meant for
+			flush()
+			b.WriteString("(in-package '" + []string{"", "gp1", "gp2", "user"}[p] + ") ")
+			pkgs = true
+		}
+		if len(cur) == 0 {
+			b.WriteString("(list")
+		}
+		switch k := at(g.Kind, i); {
+		case k >= 1 && k <= 3:
+			b.WriteString(" " + gensymExpansions[k].src)
+			cur = append(cur, item{k})
+			kinds = true
+		case gs || len(g.Names) == 0:
+			b.WriteString(" (gensym)")
+			cur = append(cur, item{0})
+		default:
+			fmt.Fprintf(&b, " 'gen%08d", g.Names[ni%len(g.Names)])
+			ni++
+			cur = append(cur, item{-1})
+		}
+	}
+	flush()
+	src := strings.Join(loads, "\n")
 	written := map[string]bool{}
 	for _, tok := range symTok.FindAllString(src, -1) {
 		written[tok] = true
 	}
-	rt := vcommon.NewRuntime(rtCfg)
-	o := rt.Load(src)
-	if o.IsErr {
-		return vcommon.Failf("gensym/error", "unexpected error %s\n%s", o.Msg, src)
-	}
-	if len(g.Names) > 0 {
+	if len(g.Names) > 0 || pkgs || kinds {
 		c.NonTrivial(src)
 		c.Note(src)
 	}
+	if pkgs {
+		c.Class("has/package-switch")
+	}
+	if split {
+		c.Class("has/several-top-level-loads")
+	}
+	if kinds {
+		c.Class("has/builtin-macro-expansion")
+	}
+	rt := vcommon.NewRuntime(rtCfg)
 	seen := map[string]bool{}
-	for i, cell := range o.Val.Cells {
-		isGen := g.Order[i] || len(g.Names) == 0
-		if !isGen {
-			continue
+	for li, load := range loads {
+		o := rt.Load(load)
+		if o.IsErr {
+			return vcommon.Failf("gensym/error", "unexpected error %s in %s\n%s", o.Msg, load, src)
 		}
-		name := cell.Str
-		if seen[name] {
-			return vcommon.Failf("gensym/duplicate", "gensym returned %s twice\n%s => %s", name, src, o.Canon)
+		if len(o.Val.Cells) != len(items[li]) {
+			return vcommon.Failf("gensym/error", "unexpected result %s of %s", o.Canon, load)
 		}
-		seen[name] = true
-		if written[name] {
-			return vcommon.Failf("gensym/collides-with-program-symbol", "gensym returned %s, a symbol the program text itself contains\n%s => %s", name, src, o.Canon)
+		for i, cell := range o.Val.Cells {
+			var names []string
+			switch it := items[li][i]; {
+			case it.kind < 0:
+				continue
+			case it.kind == 0:
+				if cell.Type != lisp.LSymbol {
+					return vcommon.Failf("gensym/not-a-symbol", "(gensym) returned %s\n%s", vcommon.Canon(cell), src)
+				}
+				names = []string{cell.Str}
+			default:
+				genSymbolsIn(cell, map[string]bool{}, &names)
+				if want := gensymExpansions[it.kind].fresh; len(names) != want {
+					return vcommon.Failf("gensym/expansion-temporaries", "%s => %s holds %d distinct fresh symbols, %d expected\n%s", gensymExpansions[it.kind].src, vcommon.Canon(cell), len(names), want, src)
+				}
+			}
+			for _, name := range names {
+				if seen[name] {
+					return vcommon.Failf("gensym/duplicate", "the fresh symbol %s was handed out twice in one runtime\n%s\nlast load => %s", name, src, o.Canon)
+				}
+				seen[name] = true
+				if written[name] {
+					return vcommon.Failf("gensym/collides-with-program-symbol", "gensym returned %s, a symbol the program text itself contains\n%s => %s", name, src, o.Canon)
+				}
+			}
 		}
 	}
 	return nil
@@ -843,5 +1060,7 @@ func TestCheck(t *testing.T) {
 		vcommon.S("quasiquote", 120000, 3000000, genQuasi(), checkQuasi),
 		vcommon.S("gensym", 20000, 300000, genGensym(), checkGensym),
 		vcommon.S("expansion-limit", 4000, 60000, genChain(), checkChain),
+		vcommon.S("reeval", 48000, 1200000, genReeval(), checkReeval),
+		vcommon.S("gensym-long", 64, 1, genGensymLong(), checkGensymLong),
 	)
 }
